@@ -89,9 +89,42 @@ def digest(obj) -> str:
     return hashlib.sha1(repr(obj).encode()).hexdigest()[:20]
 
 
+def fork_each(items, fn):
+    """Run ``fn(item)`` for every item, each in a forked child of the current process (a 7 ms snapshot of whatever
+    live objects the caller has built), and yield (item, result). Children never return: they write the pickled
+    result to a pipe and ``_exit``. An exception in the child is re-raised here as HarnessError."""
+    import pickle
+
+    for item in items:
+        r, w = os.pipe()
+        pid = os.fork()
+        if pid == 0:
+            try:
+                os.close(r)
+                try:
+                    data = pickle.dumps(("ok", fn(item)))
+                except BaseException as e:  # noqa
+                    data = pickle.dumps(("err", "".join(traceback.format_exception(e))))
+                with os.fdopen(w, "wb") as f:
+                    f.write(data)
+            finally:
+                os._exit(0)
+        os.close(w)
+        with os.fdopen(r, "rb") as f:
+            data = f.read()
+        os.waitpid(pid, 0)
+        if not data:
+            raise HarnessError("forked child died without a result on item %r" % (item,))
+        status, res = pickle.loads(data)
+        if status != "ok":
+            raise HarnessError("forked child failed on item %r:\n%s" % (item, res))
+        yield item, res
+
+
 def _expand(task):
     """Worker: expand one state (given by its history) under adapter ``key``."""
-    key, history = task
+    key, history = task[0], task[1]
+    ci, nchunks = (task[2], task[3]) if len(task) > 2 else (0, 1)
     ad = _ADAPTERS[key]
     out = []
     try:
@@ -99,7 +132,15 @@ def _expand(task):
         for ev in history:
             ad.apply(sut, ev)
         base = digest(ad.canon(sut))
-        menu = list(ad.menu(sut))
+        menu = list(ad.menu(sut))[ci::nchunks]
+        if getattr(ad, "fork_expand", False):
+            def one(ev):
+                outcome, viols = ad.apply(sut, ev)
+                return outcome, digest(ad.canon(sut)), viols
+
+            for ev, (outcome, dg, viols) in fork_each(menu, one):
+                out.append((ev, outcome, dg, viols))
+            return ("ok", history, base, out)
         first = True
         for ev in menu:
             if not first:
@@ -212,7 +253,11 @@ def bfs(
         rng.shuffle(frontier)
         nxt: List[List] = []
         stop = False
-        for r in p.imap_unordered(_expand, [(key, h) for h in frontier], chunksize=1):
+        nch = max(1, int(getattr(ad, "expand_chunks", 1)))
+        if len(frontier) >= 4 * common.WORKERS:
+            nch = 1
+        tasks = [(key, h, ci, nch) for h in frontier for ci in range(nch)]
+        for r in p.imap_unordered(_expand, tasks, chunksize=1):
             status, history, base, out = r
             if status != "ok":
                 raise HarnessError("worker failed on history %r:\n%s" % (history, out))
@@ -307,3 +352,149 @@ def deviation_scripts(horizon: int, alphabet_size_at: Callable[[int], int], k: i
             ranges = [range(1, alphabet_size_at(s)) for s in slots]
             for choice in itertools.product(*ranges):
                 yield tuple(zip(slots, choice))
+
+
+# --------------------------------------------------------------------------------------------------
+# Deviation-bounded enumeration
+# --------------------------------------------------------------------------------------------------
+class DevAdapter(Adapter):
+    """Adapter for ``deviations``: additionally supplies the default event and the alternatives at a slot."""
+
+    def default_event(self, sut, t):
+        raise NotImplementedError
+
+    def alternatives(self, sut, t, left):
+        """Alternative events at slot t when ``left`` deviations may still be spent (left >= 1)."""
+        raise NotImplementedError
+
+
+def _annot(viols, hist, ev, ad, key):
+    for v in viols:
+        v.update(history=list(hist), event=ev, adapter=key, params=ad.params())
+    return viols
+
+
+def _dev_explore(ad, key, sut, hist, t, left, H, st):
+    viols = []
+    while t < H:
+        if left > 0:
+            alts = list(ad.alternatives(sut, t, left))
+            if st.get("first_only"):
+                alts = alts[st["chunk"][0]::st["chunk"][1]]
+            st["choice_points"] += 1
+
+            def child(ev, hist=hist, t=t):
+                cst = {"exec": 0, "trans": 1, "choice_points": 0, "outs": set(), "hist": {}}
+                o, v = ad.apply(sut, ev)
+                lab = ad.label(ev)
+                cst["hist"][lab] = 1
+                cst["outs"].add(digest((lab, o)))
+                vv = _annot(v, hist, ev, ad, key)
+                if not v:
+                    vv = vv + _dev_explore(ad, key, sut, hist + [ev], t + 1, left - 1, H, cst)
+                else:
+                    cst["exec"] += 1
+                return vv, cst
+
+            for ev, (vv, cst) in fork_each(alts, child):
+                viols += vv
+                st["exec"] += cst["exec"]
+                st["trans"] += cst["trans"]
+                st["choice_points"] += cst["choice_points"]
+                st["outs"] |= cst["outs"]
+                for k_, n_ in cst["hist"].items():
+                    st["hist"][k_] = st["hist"].get(k_, 0) + n_
+            if st.get("first_only"):
+                return viols
+        ev = ad.default_event(sut, t)
+        o, v = ad.apply(sut, ev)
+        st["trans"] += 1
+        lab = ad.label(ev)
+        st["hist"][lab] = st["hist"].get(lab, 0) + 1
+        st["outs"].add(digest((lab, o)))
+        if v:
+            st["exec"] += 1
+            return viols + _annot(v, hist, ev, ad, key)
+        hist = hist + [ev]
+        t += 1
+    st["exec"] += 1
+    st["last_hist"] = hist
+    return viols
+
+
+def _dev_task(task):
+    key, t0, H, k = task[:4]
+    chunk = task[4] if len(task) > 4 else (0, 1)
+    ad = _ADAPTERS[key]
+    try:
+        sut = ad.build()
+        st = {"exec": 0, "trans": 0, "choice_points": 0, "outs": set(), "hist": {}, "chunk": chunk}
+        hist = []
+        if t0 >= H:
+            # the pure default execution, checked along its whole length
+            viols = _dev_explore(ad, key, sut, [], 0, 0, H, st)
+            return ("ok", t0, viols, st)
+        # default prefix (its violations are reported by the pure-default task t0 == H)
+        for t in range(t0):
+            ev = ad.default_event(sut, t)
+            o, v = ad.apply(sut, ev)
+            if v:
+                return ("ok", t0, [], st)
+            hist.append(ev)
+        st["first_only"] = True
+        viols = _dev_explore(ad, key, sut, hist, t0, k, H, st)
+        st.pop("first_only", None)
+        return ("ok", t0, viols, st)
+    except BaseException as e:  # noqa
+        return ("harness", t0, "".join(traceback.format_exception(e)), None)
+
+
+class DevResult:
+    def __init__(self):
+        self.executions = 0
+        self.transitions = 0
+        self.choice_points = 0
+        self.violations = []
+        self.hist = {}
+        self.outcomes = set()
+        self.samples = []
+        self.k = 0
+        self.horizon = 0
+
+
+def deviations(ad: DevAdapter, horizon: int, k: int, key: Optional[str] = None) -> DevResult:
+    """All executions of ``horizon`` slots with at most ``k`` deviations from the default event (k >= 0).
+
+    Work is split by the slot of the first deviation; inside a worker every alternative is explored in a forked
+    snapshot of the live objects, so a prefix is executed once, not once per alternative.
+    """
+    key = key or ad.name
+    if _POOL is not None and key not in _ADAPTERS:
+        close_pool()
+    _ADAPTERS[key] = ad
+    if _POOL is None:
+        ad.build()  # warm-up in the parent: lazily initialised module state is inherited by every worker
+    res = DevResult()
+    res.k, res.horizon = k, horizon
+    tasks = [(key, horizon, horizon, 0)]
+    if k > 0:
+        nch = max(1, int(getattr(ad, "dev_chunks", 1)))
+        tasks += [(key, t0, horizon, k, (ci, nch)) for t0 in range(horizon) for ci in range(nch)]
+    seen = set()
+    for status, t0, viols, st in pool().imap_unordered(_dev_task, tasks, chunksize=1):
+        if status != "ok":
+            raise HarnessError("deviation worker failed (first deviation at slot %s):\n%s" % (t0, viols))
+        res.executions += st["exec"]
+        res.transitions += st["trans"]
+        res.choice_points += st["choice_points"]
+        res.outcomes |= st["outs"]
+        for k_, n_ in st["hist"].items():
+            res.hist[k_] = res.hist.get(k_, 0) + n_
+        if "last_hist" in st and len(res.samples) < 2:
+            res.samples.append({"history": st["last_hist"]})
+        for v in viols:
+            kx = digest((v["clause"], v["signature"], v["history"], v["event"]))
+            if kx not in seen:
+                seen.add(kx)
+                res.violations.append(v)
+    return res
